@@ -166,6 +166,9 @@ func (c *fnCtx) call(v *ast.CallExpr, pre *[]fnBind, want []string) ([]string, [
 			}
 		}
 	}
+	if vals, ts := c.callExt(v, pre); vals != nil {
+		return vals, ts // fn_err.go: strings.IndexByte
+	}
 	c.lostAt(v, "call of %s", src(v.Fun))
 	return nil, nil
 }
@@ -298,6 +301,16 @@ func (c *fnCtx) callTranslated(cal *fnFunc, v *ast.CallExpr, pre *[]fnBind, want
 					c.lostAt(a, "callback argument %s", src(a))
 				}
 			}
+			continue
+		}
+		if p.v.typ.k == "obj" {
+			x := c.objArg(cal, p, a) // fn_stdobj.go: an object variable handed to an object parameter
+			s += " " + x.name
+			mutArgs = append(mutArgs, x)
+			continue
+		}
+		if p.v.typ.k == "opaque" {
+			s += " " + c.opaqueArg(a, p.v.typ, pre)
 			continue
 		}
 		if p.v.typ.k == "slice" && (p.v.view != nil || p.mutated) {
@@ -669,6 +682,10 @@ func (c *fnCtx) stmt(s ast.Stmt, k func() term) term {
 		if ok && gd.Tok == token.TYPE {
 			return k() // a struct type of the function: registered by localTypes
 		}
+		if ok && gd.Tok == token.CONST {
+			c.localConstDecl(gd) // fn_err.go: constants of the function are inlined where they are used
+			return k()
+		}
 		if !ok || gd.Tok != token.VAR {
 			c.lostAt(v, "declaration")
 		}
@@ -746,6 +763,10 @@ func (c *fnCtx) stmt(s ast.Stmt, k func() term) term {
 				vals = append(vals, c.sresValue(r, &pre))
 				continue
 			}
+			if s, ok := c.returnExt(i, res[i], r); ok {
+				vals = append(vals, s) // fn_err.go / fn_stdobj.go: nil as an error, an object field as an interface value
+				continue
+			}
 			x, t := c.expr(r, &pre)
 			if t.k == "view" {
 				c.lostAt(r, "returned slice %s", src(r))
@@ -770,6 +791,10 @@ func (c *fnCtx) stmt(s ast.Stmt, k func() term) term {
 			return c.stmt(v.Init, func() term { return c.ifStmt(v, k) })
 		}
 		return c.ifStmt(v, k)
+	case *ast.DeferStmt:
+		if c.poolPutDefer(v) {
+			return k() // fn_stdobj.go: what is put back into the pool is not represented
+		}
 	case *ast.ForStmt:
 		return c.forStmt(v, k)
 	case *ast.RangeStmt:
@@ -1081,6 +1106,9 @@ func (c *fnCtx) target(l ast.Expr, st *ast.AssignStmt, t *fnType) *fnVar {
 
 func (c *fnCtx) assign1(st *ast.AssignStmt, l, r ast.Expr, k func() term) term {
 	var pre []fnBind
+	if t, ok := c.poolGetAssign(st, l, r, k); ok {
+		return t // fn_stdobj.go: x := pool.Get().(*pkg.T)
+	}
 	// v := (*uint64)(unsafe.Pointer(&data[i])): the address of a word inside a byte slice
 	if id, ok := l.(*ast.Ident); ok && st.Tok == token.DEFINE && id.Obj != nil && c.wordPtrDecl[id.Obj] != nil && wordPtrExpr(r) != nil {
 		ix := wordPtrExpr(r)
@@ -1326,7 +1354,9 @@ func (c *fnCtx) assign1(st *ast.AssignStmt, l, r ast.Expr, k func() term) term {
 		return wrap(pre, k())
 	}
 	if t.k == "nil" {
-		if x.typ.k != "slice" {
+		if x.typ.k == "err" {
+			e = "ENil"
+		} else if x.typ.k != "slice" {
 			c.lostAt(st, "nil")
 		}
 	}
